@@ -50,6 +50,8 @@ type GBatchSc struct {
 	PreBudget int    `json:"preBudget,omitempty"`
 	PreStop   bool   `json:"preStop,omitempty"`
 	PreVia    string `json:"preVia,omitempty"`
+	// PrepConf: the node is built with decoy batch settings and its prep callback gives it the real ones
+	PrepConf bool `json:"prepConf,omitempty"`
 	// WaitMs > 0: the node has a retry wait (harness-only: the gated observation has no wait events; the wait only moves a
 	// retried attempt in time, it must not move it off the worker that owns the item)
 	WaitMs int `json:"waitMs,omitempty"`
@@ -168,7 +170,7 @@ func execGBatch(sc *GBatchSc, choose chooser) (GBatchObs, []string) {
 		return GBatchObs{Phases: [][][2]int{}, Items: "-", Slots: "-", Out: "H"}, []string{"bad:skipped-after-hangs"}
 	}
 	cfg := BatchCfg{Budget: sc.Budget, Fb: sc.Fb, Conc: sc.Conc, Stop: sc.Stop, ExecS: sc.ExecS, HasPost: true,
-		Shape: "results", Build: "builder", ExecVia: sc.ExecVia, Wait: sc.WaitMs}
+		Shape: "results", Build: "builder", ExecVia: sc.ExecVia, Wait: sc.WaitMs, PrepConf: sc.PrepConf}
 	if sc.Build == "option" {
 		cfg.Build = "option"
 	}
@@ -559,6 +561,9 @@ func genGBatch(r *rng, thorough bool, shard, shards int, jl *jobList) {
 			Build: r.pick([]string{"builder", "option"}), ExecVia: r.pick([]string{"", "", "copt", "cbuilder"})}
 		if budget >= 2 && r.chance(30) {
 			base.WaitMs = 1 + r.intn(2)
+		}
+		if it%5 == 4 || it%5 == 0 && it%2 == 0 {
+			base.PrepConf = true
 		}
 		switch it % 5 {
 		case 1, 3: // the node has been run before with a different concurrency (and budget / error mode), then re-configured
